@@ -48,6 +48,7 @@ func TestC02Directed(t *testing.T) {
 		{"dir -> symlink to a dir with the same child names", Tree{"d/x": f(1, 100), "d/sub": d(), "d/ln": l("x"), "t/x": f(2, 100), "t/sub": d(), "t/ln": l("x")}, Tree{"d": l("t"), "t/x": f(2, 100), "t/sub": d(), "t/ln": l("x")}},
 		{"dir -> symlink to '.', children also exist at top level", Tree{"d/x": f(1, 100), "x": f(2, 100)}, Tree{"d": l("."), "x": f(2, 100)}},
 		{"dir -> file, same names elsewhere", Tree{"d/x": f(1, 100), "x": f(2, 100)}, Tree{"d": f(3, 10), "x": f(2, 100)}},
+		{"dir -> symlink while siblings whose names start the same way are deleted", Tree{"lib/x": f(1, 100), "lib64/x": f(2, 100), "libexec/tool": f(3, 100), "lib.txt": f(4, 10), "libs": d()}, Tree{"lib": l("lib64"), "lib64/x": f(2, 100)}},
 		{"swap of two files whose names are close to the length limit", Tree{longName: f(1, 70000), longName + "2": f(2, 70000)}, Tree{longName: f(2, 70000), longName + "2": f(1, 70000)}},
 		{"rename chain next to files named like temporary names", Tree{"a": f(1, 70000), "b": f(2, 70000), "b.butler-rename-1": f(3, 100), ".butler-rename-1": f(4, 100)}, Tree{"b": f(1, 70000), "c": f(2, 70000), "b.butler-rename-1": f(3, 100), ".butler-rename-1": f(4, 100)}},
 		{"parked file next to a new file named like a parking name", Tree{"q": f(4, 1000)}, Tree{"q/inner": f(4, 1000), ".butler-parked-0": f(5, 100)}},
